@@ -16,7 +16,7 @@ PROPERTY = 'C12'
 LEVEL = 'proof'
 HARNESS_FILES = ['verus/c13_linear_perspective.py', 'verus/c12_fact_index_chain.py']
 UNITS = [
-    Verus('c13_linear_perspective', build_lp, min_verified=17,
+    Verus('c13_linear_perspective', build_lp, min_verified=21,
           contract='in-flight perspective (LinearFactPerspective overlay over any prior): insert => the key reads the value; delete => the key reads None whatever the prior holds '
                    '(tombstone with a prior, removal without); every other key unchanged; query = overlay entry if present else the prior\'s fact; apply_updates = the same flat-map steps in order'),
     Verus('c12_fact_index_chain', build_fc, min_verified=12,
